@@ -7,6 +7,7 @@ import (
 	"fmt"
 	"math/rand"
 	"os"
+	"runtime"
 	"sort"
 	"strconv"
 	"strings"
@@ -60,7 +61,7 @@ func tlaSeqInts(xs []int) string {
 }
 
 // renderMC renders the scenario as MC module + cfg for Pool.tla.
-func (sc *PoolScenario) renderMC(guarded, hist, liveness bool) (mod, cfg string) {
+func (sc *PoolScenario) renderMC(variant string, hist, liveness bool) (mod, cfg string) {
 	var b strings.Builder
 	b.WriteString("---- MODULE MCPool ----\nEXTENDS Pool, Json\n")
 	fmt.Fprintf(&b, "MC_Tasks == 1..%d\n", sc.Tasks)
@@ -99,8 +100,8 @@ func (sc *PoolScenario) renderMC(guarded, hist, liveness bool) (mod, cfg string)
 	} else {
 		c.WriteString("SPECIFICATION Spec\n")
 	}
-	fmt.Fprintf(&c, "CONSTANTS\n MaxW = %d\n Tasks <- MC_Tasks\n Children <- MC_Children\n Clients <- MC_Clients\n Script <- MC_Script\n Guarded = %s\n RecordHist = %s\n",
-		sc.MaxW, strings.ToUpper(strconv.FormatBool(guarded)), strings.ToUpper(strconv.FormatBool(hist)))
+	fmt.Fprintf(&c, "CONSTANTS\n MaxW = %d\n Tasks <- MC_Tasks\n Children <- MC_Children\n Clients <- MC_Clients\n Script <- MC_Script\n Variant = %q\n RecordHist = %s\n",
+		sc.MaxW, variant, strings.ToUpper(strconv.FormatBool(hist)))
 	c.WriteString("INVARIANTS TypeOK AtMostOnce NoDrop NoDupInQueue WaitAllOK JoinAllOK\n")
 	if sc.Live {
 		c.WriteString("INVARIANT NoLostTask\n")
@@ -160,6 +161,8 @@ func poolScenarios(tier string) []*PoolScenario {
 			Scripts: map[string][]PoolOp{"c1": {set(1, false), add(1), set(0, false)}}, Target: 0, Live: false},
 		{Name: "w3-grow-shrink-grow", MaxW: 3, Tasks: 2,
 			Scripts: map[string][]PoolOp{"c1": {set(1, false), add(1), set(2, false), set(1, true), set(2, false), add(2)}}, Target: 2, Live: true},
+		{Name: "w2-shrink-nowait-regrow", MaxW: 3, Tasks: 2,
+			Scripts: map[string][]PoolOp{"c1": {set(2, false), add(1), set(1, false), set(2, false), add(2)}}, Target: 2, Live: true},
 		{Name: "w2-waitall-vs-adder", MaxW: 2, Tasks: 2,
 			Scripts: map[string][]PoolOp{"c1": {set(2, false), add(1), wa}, "c2": {add(2)}}, Target: 2, Live: true},
 	}
@@ -180,7 +183,7 @@ func poolScenarios(tier string) []*PoolScenario {
 
 var poolGates = map[string]bool{
 	"pool.worker.head": true, "pool.getTask.kill": true, "pool.getTask.pop": true, "pool.idle.reg": true,
-	"pool.idle.afterWake": true, "pool.worker.exit": true, "pool.addTask.unlocked": true,
+	"pool.idle.afterWake": true, "pool.worker.exit": true, "task.child": true,
 	"task.start": true, "task.end": true, "client.op": true,
 	"pool.setWorkers.grown": true, "pool.setWorkers.kill": true, "pool.setWorkers.broadcast": true,
 	"pool.setWorkers.sample": true, "pool.setWorkers.idleWait": true, "pool.waitAll.sample": true,
@@ -202,6 +205,7 @@ func (t *hTask) Run(tid uint64) error {
 	t.run.count[t.id]++
 	t.run.mu.Unlock()
 	for _, ch := range t.run.sc.Children[t.id] {
+		t.run.s.Gate("task.child", t.id, ch)
 		if t.run.isClosed() {
 			break
 		}
@@ -370,7 +374,7 @@ func runPoolExplore(sc *PoolScenario, ch sched.Chooser) *poolRunResult {
 var gateToPC = map[string]string{
 	"pool.worker.head": "head", "pool.getTask.kill": "kill", "pool.getTask.pop": "pop", "pool.idle.reg": "idlereg",
 	"pool.idle.afterWake": "afterwake", "pool.worker.exit": "exit", "task.start": "tstart",
-	"pool.addTask.unlocked": "unlocked", "task.end": "tend", "client.op": "ready", "spawn": "ready",
+	"task.child": "tchild", "task.end": "tend", "client.op": "ready", "spawn": "ready",
 	"pool.setWorkers.grown": "grown", "pool.setWorkers.kill": "killset", "pool.setWorkers.broadcast": "bcast",
 	"pool.setWorkers.sample": "setsample", "pool.setWorkers.idleWait": "idlewait", "pool.waitAll.sample": "wasample",
 	"pool.joinAll.set": "joinset", "pool.joinAll.sample": "joinsample",
@@ -379,8 +383,8 @@ var gateToPC = map[string]string{
 // the gate a thread must be parked at BEFORE the model action can be taken
 var actionFrom = map[string]string{
 	"W_Head": "head", "W_Kill": "kill", "W_Pop": "pop", "W_IdleReg": "idlereg", "W_Wake": "afterwake",
-	"W_AfterWake": "afterwake", "W_TStart": "tstart", "W_Unlocked": "unlocked", "W_TEnd": "tend", "W_Exit": "exit",
-	"C_Add": "ready", "C_AddSignal": "unlocked", "C_Set": "ready", "C_SetBroadcast": "killset",
+	"W_AfterWake": "afterwake", "W_TStart": "tstart", "W_TChild": "tchild", "W_TEnd": "tend", "W_Exit": "exit",
+	"C_Add": "ready", "C_Set": "ready", "C_SetBroadcast": "killset",
 	"C_SetAfterBroadcast": "bcast", "C_SetSample": "setsample", "C_SetGrown": "grown", "C_SetIdleWait": "idlewait",
 	"C_WaitAll": "ready", "C_WaitAllSample": "wasample", "C_JoinAll": "ready", "C_JoinSet": "joinset", "C_JoinSample": "joinsample",
 }
@@ -492,10 +496,10 @@ func C09(r *ev.Run) {
 	var jobs []*MCJob
 	for _, sc := range scs {
 		for _, live := range []bool{false, true} {
-			if live && tier == "quick" && sc.MaxW > 2 {
+			if live && tier == "quick" && sc.MaxW > 2 && sc.Name != "w2-shrink-nowait-regrow" {
 				continue
 			}
-			mod, cfg := sc.renderMC(true, false, live)
+			mod, cfg := sc.renderMC("code", false, live)
 			jobs = append(jobs, &MCJob{Name: fmt.Sprintf("Pool/%s/liveness=%v", sc.Name, live),
 				Files: map[string]string{"MCPool.tla": mod, "MCPool.cfg": cfg},
 				Opt:   tlc.Options{Module: "MCPool", Config: "MCPool.cfg", Timeout: 15 * time.Minute}})
@@ -512,17 +516,28 @@ func C09(r *ev.Run) {
 		}
 	}
 	{
-		sc := scs[1]
-		mod, cfg := sc.renderMC(false, false, false)
-		dir, _ := tmpSpecDir(map[string]string{"MCPool.tla": mod, "MCPool.cfg": cfg})
-		res := runMC(r, tlc.Options{SpecDir: dir, Module: "MCPool", Config: "MCPool.cfg", Timeout: 5 * time.Minute})
-		os.RemoveAll(dir)
-		if res == nil {
+		// self-test: the protocol as found must be refuted (lost wake-up; resize that does not converge)
+		var regrow *PoolScenario
+		for _, sc := range scs {
+			if sc.Name == "w2-shrink-nowait-regrow" {
+				regrow = sc
+			}
+		}
+		m1, c1 := scs[1].renderMC("found-wakeup", false, false)
+		m2, c2 := regrow.renderMC("found-resize", false, true)
+		st := []*MCJob{
+			{Name: "Pool/selftest/found-wakeup", Files: map[string]string{"MCPool.tla": m1, "MCPool.cfg": c1}, Opt: tlc.Options{Module: "MCPool", Config: "MCPool.cfg", Timeout: 5 * time.Minute}},
+			{Name: "Pool/selftest/found-resize", Files: map[string]string{"MCPool.tla": m2, "MCPool.cfg": c2}, Opt: tlc.Options{Module: "MCPool", Config: "MCPool.cfg", Timeout: 10 * time.Minute}},
+		}
+		if !runMCParallel(r, st, 2) {
 			return
 		}
-		r.Set("selftest_unguarded_protocol_refuted", strings.Contains(res.Violated, "NoLostTask"))
-		if !strings.Contains(res.Violated, "NoLostTask") {
-			r.Inconclusive("self-test: TLC did not refute the unguarded wait protocol: " + res.Describe())
+		ok1 := strings.Contains(st[0].Res.Violated, "NoLostTask")
+		ok2 := strings.Contains(st[1].Res.Violated, "Temporal") || st[1].Res.ExitCode == 13
+		r.Set("selftest_found_wakeup_refuted", ok1)
+		r.Set("selftest_found_resize_refuted", ok2)
+		if !ok1 || !ok2 {
+			r.Inconclusive("self-test: TLC did not refute the protocol as found: " + st[0].Res.Describe() + " / " + st[1].Res.Describe())
 			return
 		}
 	}
@@ -553,7 +568,7 @@ func C09(r *ev.Run) {
 	nBeh := pick(tier, 40, 400)
 	followed, drifted := 0, 0
 	for _, sc := range scs {
-		mod, cfg := sc.renderMC(true, true, false)
+		mod, cfg := sc.renderMC("code", true, false)
 		dir, _ := tmpSpecDir(map[string]string{"MCPool.tla": mod, "MCPool.cfg": cfg})
 		res := runMC(r, tlc.Options{SpecDir: dir, Module: "MCPool", Config: "MCPool.cfg", Workers: 1, Timeout: 5 * time.Minute,
 			Args: []string{"-simulate", fmt.Sprintf("num=%d", nBeh), "-depth", "400", "-seed", strconv.FormatInt(r.Seed, 10)}})
@@ -665,6 +680,19 @@ func C09(r *ev.Run) {
 		addRun(sc, "free", rr)
 	}
 
+	// 3b. single-worker hammer: back-to-back submissions to a pool whose only worker keeps going idle.
+	//     Windows inside one gate-to-gate region of the worker are only reachable with real parallelism.
+	nHam := pick(tier, 300000, 3000000)
+	if lostAt, detail := poolHammer(nHam); lostAt > 0 {
+		sc := &PoolScenario{Name: "hammer-w1", MaxW: 1, Tasks: lostAt, Target: 1, Live: true}
+		rr := &poolRunResult{P: []interface{}{
+			map[string]interface{}{"ev": "accept", "t": lostAt, "c": "", "wc": 0, "n": 0, "wait": false, "target": 0, "joined": false, "hung": false},
+			map[string]interface{}{"ev": "final", "t": 0, "c": "", "wc": 1, "n": 0, "wait": false, "target": 1, "joined": false, "hung": false}},
+			Outcome: &sched.Outcome{Schedule: []string{"free", detail}}}
+		addRun(sc, "hammer", rr)
+	}
+	r.Set("hammer_submissions", nHam)
+
 	// 4. validation of all recorded runs against the property-level specification
 	bad, ok := validateTrace(r, "PoolP_Trace", "PoolP_Trace.cfg", trace, 10*time.Minute)
 	if !ok {
@@ -689,6 +717,62 @@ func C09(r *ev.Run) {
 	if len(runs) > 0 {
 		r.Sample(map[string]interface{}{"mode": runs[len(runs)-1].mode, "scenario": runs[len(runs)-1].sc.Name, "property_level_trace": runs[len(runs)-1].res.P})
 	}
+}
+
+type fnTask struct{ f func() }
+
+func (t *fnTask) Run(tid uint64) error { t.f(); return nil }
+func (t *fnTask) HandleError(e error)  {}
+
+// poolHammer submits n tasks one after the other to a one-worker pool and waits for each to start.
+// Returns the number of the submission that was never started (the worker sits in Cond.Wait with
+// the task queued and nobody else will call the pool), 0 if all were started.
+func poolHammer(n int) (int, string) {
+	verifhook.Set(func(string, ...interface{}) {})
+	tp := pool.NewThreadPool()
+	tp.SetWorkerCount(1, false)
+	defer func() {
+		done := make(chan struct{})
+		go func() { tp.SetWorkerCount(0, true); close(done) }()
+		select {
+		case <-done:
+		case <-time.After(2 * time.Second):
+		}
+	}()
+	var started int64
+	task := &fnTask{func() { atomic.AddInt64(&started, 1) }}
+	workerWaiting := func() bool {
+		buf := make([]byte, 1<<18)
+		m := runtime.Stack(buf, true)
+		for _, blk := range strings.Split(string(buf[:m]), "\n\n") {
+			if strings.Contains(blk, "pool.(*ThreadPoolWorker).run") {
+				return strings.Contains(strings.SplitN(blk, "\n", 2)[0], "[sync.Cond.Wait")
+			}
+		}
+		return false
+	}
+	for i := 1; i <= n; i++ {
+		tp.AddTask(task)
+		spins := 0
+		for atomic.LoadInt64(&started) != int64(i) {
+			spins++
+			if spins%4000 == 0 {
+				_, ic, q, _, _ := stateCounts(tp)
+				if q == 1 && ic == 1 && workerWaiting() {
+					// confirm: still the same a moment later -> permanent
+					time.Sleep(2 * time.Millisecond)
+					_, ic2, q2, _, _ := stateCounts(tp)
+					if q2 == 1 && ic2 == 1 && workerWaiting() && atomic.LoadInt64(&started) != int64(i) {
+						return i, fmt.Sprintf("submission %d: queue=1, the only worker is in sync.Cond.Wait", i)
+					}
+				}
+			}
+			if spins%64 == 0 {
+				runtime.Gosched()
+			}
+		}
+	}
+	return 0, ""
 }
 
 func poolEventClass(e interface{}) string {
